@@ -17,7 +17,7 @@ CONSTANTS
     CfgSet,        \* configurations, one chosen in Init
     SubmitSet,     \* user operations that may be submitted: records [kind, qos, tmo, retain, need, topic, ualias, units, n]
     ConnackSet,    \* CONNACKs the broker may send: records [sp, rm, ka, tam, mqos, mps, ret, wild, subid, shared, acid, rc]
-    AckHows,       \* subset of {"normal", "fail", "wrongtype", "unknownid", "dup", "wrongcount"}
+    AckHows,       \* subset of {"normal", "fail", "nomatch", "wrongtype", "unknownid", "dup", "wrongcount"}
     AckWhich,      \* subset of {"oldest", "newest"}
     InPubSet,      \* inbound publishes: records [qos, pid, dup, alias, topic]   (pid -1 fresh, -2 repeat last)
     Others,        \* subset of {"Pingresp", "ServerDisconnect", "Auth", "Garbage", "InPubrel", "InPubrelUnknown", "Disconnect", "Reset"}
@@ -140,14 +140,14 @@ Submit(a) ==
     /\ env.keys < MaxOps
     /\ LET key == env.keys + 1
            attrs == [NoAttrs EXCEPT !.qos = a.qos, !.key = key, !.tmo = a.tmo, !.topic = a.topic, !.ualias = a.ualias,
-                                    !.retain = a.retain, !.need = a.need, !.units = a.units, !.n = a.n]
+                                    !.retain = a.retain, !.need = a.need, !.units = a.units, !.plen = a.plen, !.n = a.n]
            r == UserSubmit(es, Now, a.kind, attrs)
            sub == Ev(es, "Submit", [op |-> key, kind |-> a.kind, qos |-> a.qos, topic |-> a.topic, alias |-> a.ualias, entries |-> a.n,
-                                    tmo |-> a.tmo, retain |-> B2I(a.retain), hash |-> key, len |-> 10, state |-> es.st, variant |-> a.need])
+                                    tmo |-> a.tmo, retain |-> B2I(a.retain), hash |-> key, len |-> IF a.plen >= 0 THEN a.plen ELSE 10, state |-> es.st, variant |-> a.need])
        IN Commit(r, <<sub>>, <<>>, [env EXCEPT !.keys = key],
                  [a |-> "Submit", kind |-> a.kind, qos |-> a.qos, tmo |-> IF a.tmo = None THEN -1 ELSE (a.tmo * 1000) \div TPS, retain |-> a.retain,
                   topic |-> a.topic, alias |-> a.ualias, entries |-> IF a.n = 0 THEN 1 ELSE a.n, variant |-> IF a.need \in {"none", "oversize"} THEN "" ELSE a.need,
-                  size |-> IF a.need = "oversize" THEN 300 ELSE IF a.units > 1 THEN 28 ELSE 0])
+                  size |-> IF a.plen >= 0 THEN a.plen ELSE IF a.need = "oversize" THEN 300 ELSE IF a.units > 1 THEN 28 ELSE 0])
 
 UserDisc ==
     /\ "Disconnect" \in Others
@@ -158,9 +158,12 @@ UserDisc ==
 
 OpenEv(r) == Ev(r.s, "Open", [conn |-> 0, deadline |-> Now + Deadline, result |-> r.res, state |-> r.s.st])
 
+PermsOf(S) == LET D == 1..Cardinality(S) IN {f \in [D -> S] : \A i, j \in D : i # j => f[i] # f[j]}
+
 Close ==
     /\ env.open
-    /\ \E po \in {SetToSortedSeq(Range(es.pendPub))}, no \in {SetToSortedSeq(Range(es.pendNon))} :
+    \* the pending tables are hash maps: the close handling meets their entries in ANY order (the later sort must make it irrelevant)
+    /\ \E po \in PermsOf(Range(es.pendPub)), no \in {SetToSortedSeq(Range(es.pendNon))} :
           LET r == ConnClosed(es, Now, po, no)
               part == Sub(r.evs, {"Tx"})
               rest == [r EXCEPT !.evs = SelectSeq(@, LAMBDA e : e.ev # "Tx")]
@@ -257,6 +260,9 @@ Ack(which, how) ==
                [] how = "fail" ->
                       Feed([base EXCEPT !.rc = IF isSub THEN 0 ELSE IF es.cfg.ver # 5 THEN 0 ELSE IF o.type = "PUBCOMP" THEN 146 ELSE 128],
                            env.connackSent /\ inOrder, mark, dec)
+               \* MQTT 5: PUBACK / PUBREC may carry 0x10 "No matching subscribers" - a success code: the exchange goes on as usual
+               [] how = "nomatch" ->
+                      Feed([base EXCEPT !.rc = IF es.cfg.ver = 5 /\ o.type \in {"PUBACK", "PUBREC"} THEN 16 ELSE 0], env.connackSent /\ inOrder, mark, dec)
                [] how = "wrongtype" ->
                       LET t2 == WrongType(o.type)
                       IN Feed([base EXCEPT !.type = t2, !.codes = IF t2 \in {"SUBACK", "UNSUBACK"} THEN (IF o.n = 0 THEN 1 ELSE o.n) ELSE 0], FALSE, env, dec)
